@@ -1156,6 +1156,74 @@ pub fn c04_nested_prefix() {
         Some(w) => check!(got == Ok(w), "OP(OP x) applies the outer operator to the value of the inner expression"),
     }
 }
+/// C06 / C19 through Program::execute: an operand that is skipped is not looked at in any way - an undeclared function or
+/// variable inside it is not an error - and a reached undeclared name is the error reported.
+pub fn c06_skipped_undeclared() {
+    let case: u8 = any();
+    crate::sym::assume(case <= 9);
+    let (src, want): (&str, Option<Value>) = match case {
+        0 => ("false && nope(1)", Some(Value::Bool(false))),
+        1 => ("true || nope(1)", Some(Value::Bool(true))),
+        2 => ("true ? 1 : nope(1)", Some(Value::Int(1))),
+        3 => ("false ? nope(1) : 2", Some(Value::Int(2))),
+        4 => ("[1, 2, 3].all(x, x > 0 || nope(x))", Some(Value::Bool(true))),
+        5 => ("false && missing_variable", Some(Value::Bool(false))),
+        6 => ("true ? 1 : missing_variable", Some(Value::Int(1))),
+        7 => ("[].map(x, nope(x))", Some(Value::List(Arc::new(vec![])))),
+        8 => ("true && nope(1)", None),
+        _ => ("false ? 1 : missing_variable", None),
+    };
+    let got = Program::compile(src).expect("compiles").execute(&Context::default());
+    match want {
+        Some(v) => check!(got == Ok(v), "a skipped operand is never evaluated: what it refers to does not matter"),
+        None => check!(matches!(got, Err(ExecutionError::UndeclaredReference(_))), "a reached undeclared name is reported as such"),
+    }
+}
+/// C04: which call shapes are macros (name, arity, receiver presence).  Host functions are registered under every macro name;
+/// a call that is not a macro shape must reach the host function, a macro shape must not.
+pub fn c04_macro_lookup() {
+    let case: u8 = any();
+    crate::sym::assume(case <= 15);
+    let calls: Arc<Mutex<Vec<String>>> = Arc::new(Mutex::new(Vec::new()));
+    let mut ctx = Context::default();
+    for name in ["has", "all", "exists", "exists_one", "existsOne", "map", "filter"] {
+        let l = calls.clone();
+        ctx.add_function(name, move |_ftx: &cel_interpreter::FunctionContext| -> i64 {
+            l.lock().unwrap().push(name.to_string());
+            7
+        });
+    }
+    ctx.add_variable_from_value("l", Value::List(Arc::new(vec![Value::Int(1), Value::Int(2)])));
+    ctx.add_variable_from_value("x", Value::Int(1));
+    let mut m = std::collections::HashMap::new();
+    m.insert("k".to_string(), Value::Int(1));
+    ctx.add_variable_from_value("m", m);
+    let blist = |v: Vec<bool>| Value::List(Arc::new(v.into_iter().map(Value::Bool).collect()));
+    let (src, host, want): (&str, Option<&str>, Value) = match case {
+        0 => ("x.has(m.k)", Some("has"), Value::Int(7)),
+        1 => ("has(m.k)", None, Value::Bool(true)),
+        2 => ("all(l, 1)", Some("all"), Value::Int(7)),
+        3 => ("l.all(v, v > 0)", None, Value::Bool(true)),
+        4 => ("l.all(1)", Some("all"), Value::Int(7)),
+        5 => ("map(l, 1)", Some("map"), Value::Int(7)),
+        6 => ("l.map(v, v > 1, v > 0)", None, blist(vec![true])),
+        7 => ("l.map(1, 2, 3, 4)", Some("map"), Value::Int(7)),
+        8 => ("l.filter(v, v > 1)", None, Value::List(Arc::new(vec![Value::Int(2)]))),
+        9 => ("filter(l, 1)", Some("filter"), Value::Int(7)),
+        10 => ("l.exists_one(v, v == 1)", None, Value::Bool(true)),
+        11 => ("l.existsOne(v, v == 1)", None, Value::Bool(true)),
+        12 => ("l.exists(v, v == 3)", None, Value::Bool(false)),
+        13 => ("x.has()", Some("has"), Value::Int(7)),
+        14 => ("has(1, 2)", Some("has"), Value::Int(7)),
+        _ => ("l.exists(1)", Some("exists"), Value::Int(7)),
+    };
+    let got = Program::compile(src).expect("compiles").execute(&ctx);
+    let log = calls.lock().unwrap().clone();
+    match host {
+        Some(h) => check!(log == vec![h.to_string()] && got == Ok(want), "a call that is not a macro shape (name, arity, receiver) reaches the function of that name with its receiver and arguments"),
+        None => check!(log.is_empty() && got == Ok(want), "a macro shape expands to its comprehension / presence test"),
+    }
+}
 /// C04 visitor half: a run of k prefix operators applies the operator k times (an even run cancels).
 pub fn c04_prefix() {
     let (op, k, operand): (u8, u8, u8) = (any(), any(), any());
@@ -1713,6 +1781,8 @@ crate::replay_only! {
     #[kani::unwind(2)] c07_macro_over_literal: "off", "the five macros over a list literal of logging calls with a logging body, through Program::compile + execute", "5 macros x 1-4 elements";
     #[kani::unwind(2)] c20_extractor_combos: "off", "host functions combining This / positional / Identifier / Expression / Arguments / FunctionContext extractors, both call styles, through Program::compile + execute", "ten call shapes";
     #[kani::unwind(2)] c04_nested_prefix: "off", "OP(OP x) for the two prefix operators over a bool, an int and i64::MIN through Program::compile + execute, against two separate evaluations", "2 x 2 operators x 3 operands";
+    #[kani::unwind(2)] c06_skipped_undeclared: "off", "short-circuit operators, the conditional and macros over operands that name undeclared functions / variables, through Program::compile + execute", "ten programs";
+    #[kani::unwind(2)] c04_macro_lookup: "off", "calls named like the macros in macro and non-macro shapes, with host functions registered under the macro names, through Program::compile + execute", "sixteen call shapes";
     #[kani::unwind(2)] c12_literal: "off", "a string / bytes literal token through Program::compile + execute against an independent decoder of the CEL literal syntax", "token text of up to 24 characters taken from the vector";
     #[kani::unwind(2)] c13_string_roundtrip: "off", "int(string(x)) / uint(string(x)) / double(string(x)) through Program::compile + execute", "payload bits from the vector";
     #[kani::unwind(2)] c13_literal: "off", "int / uint literals of every sign, radix and magnitude through Program::compile + execute", "text built from the vector";
